@@ -654,6 +654,11 @@ def run(replay=None):
     if tables is not None and not any(s.startswith("translator:") for s, _, _ in chk.violations):
         add_samples(chk, tables)
         dynamic_mex(chk, tables)
+    # "the same meaning": a field can be wired name-for-name and still arrive too late or in the wrong units.  For the C binding
+    # the meaning is observed: the same history through piqp_* and through the C++ class it wraps must agree bit for bit, with
+    # every settings field at a non-default value both before setup and between solves (shared with C16's dynamic half).
+    from . import c16
+    c16.dynamic_part(chk)
     chk.cov["trusted_base"] = chk.cov["trusted_base"][:2] + [
         "translate/tables.py (regex/brace-matching extractor; fails closed on unparsed statements inside the blocks it reads)",
         "PiqpProofs/TableLogic.lean predicates (Wired, Covers, SameTable, TypesMatch) and the alias/type vocabularies written there",
